@@ -95,6 +95,8 @@ where
                 Escape::Spaces => {
                     if c == b' ' || c == b'\n' {
                         out.extend_from_slice(b"\\ ");
+                        at_line_start = false;
+                        continue;
                     } else {
                         if c == b'\\' {
                             out.push(b'\\');
